@@ -78,7 +78,11 @@ def run(name, pids, scratch=False):
     try:
         for pid in pids:
             t0 = time.time()
+            evf = os.path.join(ROOT, 'evidence', f'{pid}.json')
+            saved = open(evf).read() if os.path.exists(evf) else None
             rc, out = sh(f'./check {pid} --tier quick', cwd=ROOT, timeout=7200)
+            if saved is not None:
+                open(evf, 'w').write(saved)   # the evidence file describes the unchanged tree: a run on a seeded change must not replace it
             lines = [l for l in out.splitlines() if not l.startswith('WARNING')]
             vio = [l for l in lines if l.startswith('VIOLATION')]
             summary = next((l for l in lines if l.startswith(pid + ':')), '')
